@@ -105,7 +105,7 @@ theorem never_diverges (c : Cfg) (hwf : c.WF) (io : Nat → Fault) (fs0 : FS) (h
     (run c io (init fs0) evs).status ≠ .diverged :=
   (noOv_run hwf io evs _ (noOv_init c fs0 hdom)).nodiv
 
-def cfgPlain : Cfg := ⟨false, 0, 0, false, false, 2, true, false, false, false⟩
+def cfgPlain : Cfg := ⟨false, 0, 0, false, false, 2, true, false, false, false, false⟩
 
 /-! ### the tool as shipped (router behind go-nsq's `handlerLoop` with its `max_attempts` give-up) -/
 
@@ -157,7 +157,7 @@ theorem fin_after_fsync_msg_checker_sound (tr pre post : List Nsq.Model.ToFileTr
 
 /-! ### non-vacuity -/
 
-def cfgGzWork : Cfg := ⟨true, 10, 0, true, false, 2, true, false, false, false⟩
+def cfgGzWork : Cfg := ⟨true, 10, 0, true, false, 2, true, false, false, false, false⟩
 def noFault : Nat → Fault := fun _ => .ok
 def m1 : Msg := ⟨1, [104, 105]⟩
 def m2 : Msg := ⟨2, [120]⟩
